@@ -31,6 +31,7 @@
 #include <sys/types.h>
 #include <netinet/in.h>
 #include <netinet/tcp.h>
+#include <sys/un.h>
 #include <arpa/inet.h>
 #include <errno.h>
 #include <signal.h>
@@ -727,8 +728,8 @@ void case_editor(uint64_t, vh::Rng &rng) {
     d.finish();
     vh::counter("probe_invocations_total", sh.probe_total);
     note_editor_case(d);
-    if (vh::want_sample() && d.must_items_checked >= 2 && d.mid_edits >= 2) {
-        vh::sample("{\"mode\":\"editor\",\"script\":" + vh::jstr(d.desc.substr(0, 1500)) + ",\"final_history\":" + vh::jstr(c13::show_args(d.m.hist).substr(0, 600)) + "}");
+    if (vh::st().args.first == 0 && vh::want_sample(2) && d.must_items_checked >= 2 && d.mid_edits >= 2 && d.refs_checked >= 1) {
+        vh::sample("{\"mode\":\"editor\",\"script\":" + vh::jstr(d.desc.substr(0, 1500)) + ",\"final_history\":" + vh::jstr(c13::show_args(d.m.hist).substr(0, 600)) + "}", 2);
     }
 }
 
@@ -810,8 +811,8 @@ void case_histref(uint64_t idx, vh::Rng &rng) {
     vh::counter("histref_cases");
     d.sig.add(idx);
     vh::note_case(d.sig.h, true);
-    if (vh::want_sample(2) && fill == 7 && form == 4)
-        vh::sample("{\"mode\":\"histref\",\"fill\":7,\"script\":" + vh::jstr(d.desc.substr(0, 1200)) + "}", 2);
+    if (vh::st().args.first == 0 && vh::want_sample(1) && fill == 7 && form == 4)
+        vh::sample("{\"mode\":\"histref\",\"fill\":7,\"script\":" + vh::jstr(d.desc.substr(0, 1200)) + "}", 1);
 }
 
 //! ------------------------------------------------------------------------------------------ hostile mode
@@ -1070,8 +1071,8 @@ void case_hostile(uint64_t, vh::Rng &rng) {
     w.run();
     vh::counter("sends_recorded", w.sh.conn.total_sends);
     vh::note_case(w.sig.h, w.sh.conn.total_sends > 10);
-    if (vh::want_sample(2) && !w.aborted && w.desc.size() > 400)
-        vh::sample("{\"mode\":\"hostile\",\"script\":" + vh::jstr(w.desc.substr(0, 1200)) + "}", 2);
+    if (vh::st().args.first == 0 && vh::want_sample(1) && !w.aborted && w.desc.size() > 400)
+        vh::sample("{\"mode\":\"hostile\",\"script\":" + vh::jstr(w.desc.substr(0, 1200)) + "}", 1);
 }
 
 //! ------------------------------------------------------------------------------------------ TCP front ends
@@ -1117,7 +1118,8 @@ struct TcpWorld {
     bool telnet;
     Telnetd *telnetd = nullptr;
     TcpRpc *rpc = nullptr;
-    int port = -1;
+    int port = -1;              //!< loopback TCP port, or -1 when the case runs over the unix-domain socket
+    std::string unix_path;
     std::vector<Client> clients;
     bool aborted = false;
     std::string desc;
@@ -1129,18 +1131,34 @@ struct TcpWorld {
 
     void log(const std::string &s) { desc += s; desc += ' '; if (desc.size() < 5800) vh::st().case_desc = desc; }
 
+    bool start_on(const std::string &addr) {
+        bool ok;
+        if (telnet) { telnetd = new Telnetd(sh.loop, sh.term); ok = telnetd->initialize(addr) && telnetd->start(); if (!ok) { delete telnetd; telnetd = nullptr; } }
+        else { rpc = new TcpRpc(sh.loop, sh.term); ok = rpc->initialize(addr) && rpc->start(); if (!ok) { delete rpc; rpc = nullptr; } }
+        return ok;
+    }
+
+    //! Every `--tcp-every`-th case listens on a loopback TCP port, the others on a unix-domain stream socket (same
+    //! TcpServer / TcpConnection / BufferedFd code path). TCP is rationed because every closed connection parks an
+    //! ephemeral port in TIME_WAIT for 60 s: at full rate the port range would run dry and the harness - not the
+    //! code under test - would fail.
     bool start() {
         sh.build_fixed_tree();
         sh.probe_reply = true;
-        for (int attempt = 0; attempt < 20; ++attempt) {
-            port = pick_port();
-            if (port < 0) continue;
-            std::string addr = "127.0.0.1:" + std::to_string(port);
-            bool ok;
-            if (telnet) { telnetd = new Telnetd(sh.loop, sh.term); ok = telnetd->initialize(addr) && telnetd->start(); if (!ok) { delete telnetd; telnetd = nullptr; } }
-            else { rpc = new TcpRpc(sh.loop, sh.term); ok = rpc->initialize(addr) && rpc->start(); if (!ok) { delete rpc; rpc = nullptr; } }
-            if (ok) return true;
+        long every = vh::st().args.num("tcp-every", 3);
+        if (every > 0 && case_idx % (uint64_t)every == 0) {
+            for (int attempt = 0; attempt < 20; ++attempt) {
+                port = pick_port();
+                if (port < 0) continue;
+                if (start_on("127.0.0.1:" + std::to_string(port))) { vh::counter("tcp_cases_over_loopback_tcp"); return true; }
+            }
+            vh::counter("tcp_loopback_unavailable_fell_back_to_unix");
         }
+        port = -1;
+        std::string dir = vh::st().args.out.empty() ? std::string("/var/tmp") : vh::st().args.out;
+        unix_path = dir + "/c13_" + std::to_string((long)getpid()) + ".sock";
+        if (unix_path.size() >= sizeof(((struct sockaddr_un *)0)->sun_path)) unix_path = "/var/tmp/c13_" + std::to_string((long)getpid()) + ".sock";
+        if (start_on(unix_path)) { vh::counter("tcp_cases_over_unix_socket"); return true; }
         return false;
     }
 
@@ -1168,7 +1186,7 @@ struct TcpWorld {
             if (n > 0) {
                 if (c.rx.size() < (8u << 20)) c.rx.append(b, (size_t)n);
                 int one = 1;
-                ::setsockopt(c.fd, IPPROTO_TCP, TCP_QUICKACK, &one, sizeof one);    // not sticky: re-arm after every read
+                if (port >= 0) ::setsockopt(c.fd, IPPROTO_TCP, TCP_QUICKACK, &one, sizeof one);    // not sticky: re-arm after every read
                 continue;
             }
             if (n == 0) { c.eof = true; }
@@ -1178,6 +1196,16 @@ struct TcpWorld {
     }
 
     int connect_client() {
+        if (port < 0) {
+            int ufd = ::socket(AF_UNIX, SOCK_STREAM, 0);
+            if (ufd < 0) return -1;
+            struct sockaddr_un u;
+            memset(&u, 0, sizeof u);
+            u.sun_family = AF_UNIX;
+            memcpy(u.sun_path, unix_path.data(), unix_path.size());
+            if (::connect(ufd, (struct sockaddr *)&u, sizeof u) != 0) { ::close(ufd); return -1; }
+            return ufd;
+        }
         int fd = ::socket(AF_INET, SOCK_STREAM, 0);
         if (fd < 0) return -1;
         struct sockaddr_in a;
@@ -1536,8 +1564,8 @@ void case_tcp(uint64_t idx, vh::Rng &rng, bool telnet) {
     w.run();
     vh::counter("probe_invocations_total", w.sh.probe_total);
     vh::note_case(w.sig.h, w.sh.probe_total >= 2);
-    if (vh::want_sample(2) && !w.aborted && w.desc.size() > 200)
-        vh::sample("{\"mode\":" + vh::jstr(telnet ? "telnet" : "tcprpc") + ",\"clients\":" + vh::jstr(w.desc.substr(0, 1200)) + "}", 2);
+    if (vh::st().args.first == 0 && vh::want_sample(1) && !w.aborted && w.desc.size() > 200)
+        vh::sample("{\"mode\":" + vh::jstr(telnet ? "telnet" : "tcprpc") + ",\"clients\":" + vh::jstr(w.desc.substr(0, 1200)) + "}", 1);
 }
 
 }  // namespace
